@@ -118,6 +118,9 @@ type sandbox struct {
 	Proj  string // project directory (holds the spokfile)
 	Log   string // side-effect log (outside the project so that no glob can see it)
 	Flags string // directory of fail flags
+
+	nBinary  int // binary invocations so far (selects the ambient environment variant)
+	fixedEnv int // > 0: that variant for every binary invocation
 }
 
 func newSandbox(root string) *sandbox {
@@ -311,6 +314,8 @@ func (sb *sandbox) materialise(s hshape, st hstate) {
 		_ = os.RemoveAll(filepath.Join(sb.Proj, e.Name()))
 	}
 	_ = os.WriteFile(filepath.Join(sb.Proj, "spokfile"), []byte(sb.spokfileText(s)), 0o644)
+	// every project has a .env next to the spokfile (hidden: no glob sees it, no task names it)
+	_ = os.WriteFile(filepath.Join(sb.Proj, ".env"), []byte("FROM_DOTENV=1\n"), 0o644)
 	for p, c := range st.Files {
 		full := filepath.Join(sb.Proj, p)
 		_ = os.MkdirAll(filepath.Dir(full), 0o755)
@@ -392,7 +397,7 @@ func (sb *sandbox) readBack(s hshape, st *hstate) {
 			if b, _ := os.ReadFile(p); string(b) != sb.spokfileText(s) {
 				other = append(other, "spokfile-changed")
 			}
-		case rel == ".spok" || rel == ".spok/.gitignore" || rel == ".spok/CACHEDIR.TAG":
+		case rel == ".spok" || rel == ".spok/.gitignore" || rel == ".spok/CACHEDIR.TAG" || rel == ".env":
 		case rel == ".spok/cache.json":
 			b, _ := os.ReadFile(p)
 			c := string(b)
@@ -654,7 +659,14 @@ func (sb *sandbox) runBinary(bin string, s hshape, op hop, extraEnv []string) ho
 		args = append(args, "--force")
 	}
 	args = append(args, op.Tasks...)
-	inv := core.RunSpok(core.SpokOpts{Bin: bin, Dir: sb.Proj, Home: sb.Home, Args: args, Env: extraEnv})
+	// every other binary run finds variables in its environment that a tool might give a meaning to
+	sb.nBinary++
+	variant := sb.nBinary
+	if sb.fixedEnv > 0 {
+		variant = sb.fixedEnv
+	}
+	env := append(append([]string{}, extraEnv...), core.HostileEnv(variant, sb.Home)...)
+	inv := core.RunSpok(core.SpokOpts{Bin: bin, Dir: sb.Proj, Home: sb.Home, Args: args, Env: env})
 	o.Log = sb.readLog()
 	o.Exit = inv.Exit
 	if inv.Signal != "" {
@@ -672,7 +684,8 @@ func (sb *sandbox) runBinary(bin string, s hshape, op hop, extraEnv []string) ho
 	}
 	var jr []jsonResult
 	if err := json.Unmarshal([]byte(strings.TrimSpace(inv.Stdout)), &jr); err != nil {
-		o.Err = "unparseable --json output: " + core.Trunc(inv.Stdout, 200)
+		// exit 0 without a readable report (that is C20's business): the run is judged by what the
+		// side-effect log shows to have run
 		return o
 	}
 	o.HaveRep = true
